@@ -505,28 +505,45 @@ func c13WhileWriting(r *Run, k int) error {
 	for _, e := range st.OpLog().Values().Slice() {
 		before[e.GetHash().String()] = true
 	}
-	stop := make(chan struct{})
-	done := make(chan int)
-	go func() {
-		n := 0
-		for {
-			select {
-			case <-stop:
-				done <- n
-				return
-			default:
+	var out int
+	var msg string
+	written := 0
+	if k%2 == 1 {
+		// every second round the interleaving is fixed instead of left to the scheduler: exactly
+		// one write lands while SaveSnapshot is between two of its reads of the store (it asks the
+		// store for its type after it has read the length of the log and before it lists the
+		// entries; whatever the order of its reads, the write lands inside the save)
+		w := &c13WritesOnType{Store: st, write: func() {
+			if c13Write(r2(r, k), st, "w0", 8) == nil {
+				written++
 			}
-			if c13Write(r2(r, k), st, fmt.Sprintf("w%d", n%5), 8) != nil {
-				done <- n
-				return
+		}}
+		out, msg, _ = c13Save(ctx, w)
+		r.Count("while-writing:one-write-inside-the-save")
+	} else {
+		stop := make(chan struct{})
+		done := make(chan int)
+		go func() {
+			n := 0
+			for {
+				select {
+				case <-stop:
+					done <- n
+					return
+				default:
+				}
+				if c13Write(r2(r, k), st, fmt.Sprintf("w%d", n%5), 8) != nil {
+					done <- n
+					return
+				}
+				n++
 			}
-			n++
-		}
-	}()
-	time.Sleep(2 * time.Millisecond)
-	out, msg, _ := c13Save(ctx, st)
-	close(stop)
-	written := <-done
+		}()
+		time.Sleep(2 * time.Millisecond)
+		out, msg, _ = c13Save(ctx, st)
+		close(stop)
+		written = <-done
+	}
 	s.Settle()
 	after := map[string]bool{}
 	for _, e := range st.OpLog().Values().Slice() {
@@ -565,6 +582,19 @@ func c13WhileWriting(r *Run, k int) error {
 	}
 	r.Count("while-writing:checked")
 	return nil
+}
+
+// c13WritesOnType is the store handed to SaveSnapshot in the fixed-interleaving rounds: the first
+// time it is asked for its type it performs one write on the store.
+type c13WritesOnType struct {
+	iface.Store
+	write func()
+	once  sync.Once
+}
+
+func (w *c13WritesOnType) Type() string {
+	w.once.Do(w.write)
+	return w.Store.Type()
 }
 
 // r2 gives the writer goroutine a Run with a PRNG of its own (rand.Rand is not goroutine safe)
